@@ -30,6 +30,23 @@ def family_check(ck, names, k, tag, parts=16, rounds=1):
     return total
 
 
+def sweep_all(ck, tag, k=1, seedoff=0):
+    """Every one of the 65536 first words once (k times) from a random well-formed state, validated in full against CoreCycle.
+    The family checks give a property's own instructions many states each; this sweep keeps every other instruction (and
+    the decoder) in view of the same check, so a slip that reaches the property through an instruction outside its list
+    still shows."""
+    ck.build('isa_rec')
+    n = 16
+    step = 65536 // n
+    files = [os.path.join(ck.work, '%s_all_%02d.ndjson' % (tag, i)) for i in range(n)]
+    ck.run_jobs(['%s --mode all:%d..%d:%d --seed %d --out %s' % (ck.bin('isa_rec'), i * step, (i + 1) * step - 1, k,
+                                                                ck.seed * 257 + i + seedoff, f) for i, f in enumerate(files)], timeout=900)
+    ck.validate_traces('IsaTrace', 'Trace_Isa.cfg', files, timeout=2400, sig_prefix='sweep')
+    ck.extra_cov['sweep_records'] = sum(sum(1 for _ in open(f)) for f in files)
+    for f in files:
+        os.remove(f)
+
+
 def generator_clause(ck, parts=None, tag='gen'):
     """The project's own hardware-test generator (GenerateTestCasesToFile, about 82k vectors, 4 per enabled opcode), loaded the
     way the project's verifier loads them: IsaTrace additionally requires no abort, pc advance = decoded length, no second
